@@ -150,6 +150,21 @@ class Ref:
             k = k.lower()
         return int.from_bytes(k, 'big')
 
+    def selfargs(self, a):
+        """putself <key> <off:len:mode>: the value argument is a slice of the stored value, handed back through the container's own pointer"""
+        t = self.typ
+        if t in ('tree', 'hash'):
+            old = self.d.get(a[0]) or None
+        else:
+            i = self.lfind(a[0])
+            old = None if i is None else self.l[i][1]
+        off, ln = a[1][0], a[1][1]
+        if old is not None and ln < 0:
+            ln = max(len(old) - off, 0)
+        if old is None or off + ln > len(old) or ln == 0:
+            return None
+        return [a[0], old[off:off + ln]]
+
     def model_op(self, op, a, rec):
         """the model-level op line (ocaml/d_alloc.ml) for this op in the current state; called BEFORE apply()"""
         t = self.typ
@@ -159,6 +174,9 @@ class Ref:
             return 'none'
         if op == 'clear':
             return 'vclear' if t == 'vec' else ('none' if t == 'harr' else 'clear')
+        if op == 'putself':
+            pa = self.selfargs(a)
+            return 'none' if pa is None else self.model_op('put', pa, rec)
         if op == 'putstrf':
             if t == 'tree':
                 return 'tputf %d %d %d' % (self.kid(a[0] + b'\0'), len(a[0]) + 1, a[1])
@@ -309,6 +327,9 @@ class Ref:
         """a: list of decoded args (bytes or int). Returns expected result string, or None when unspecified."""
         t = self.typ
         hx = hexs
+        if op == 'putself':
+            pa = self.selfargs(a)
+            return 'noself' if pa is None else self.apply1('put', pa)
         if op == 'putstrf':                              # = put(name, text, strlen(text) + 1); the tree's putstr also stores the name's NUL
             return self.apply1('put', [a[0] + b'\0' if t == 'tree' else a[0], ftext(a[1]) + b'\0'])
         if op == 'addstrf':                              # = addstr(text) = addlast(text, strlen(text)): an empty text is refused
@@ -591,6 +612,8 @@ def decode_args(typ, op, words):
         return []
     if op in ('put',):
         return [b(words[0]), b(words[1]) if len(words) > 1 else b'']
+    if op == 'putself':
+        return [b(words[0]), [int(x) for x in words[1].split(':')]]
     if op == 'putstrf':
         return [b(words[0]), int(words[1])]
     if op == 'addstrf':
@@ -670,6 +693,8 @@ def gen_tree(rng, quick):
         pick = ks if len(ks) <= 7 else [ks[0], ks[len(ks) // 2], ks[-1]] + rng.sample(ks, 3 if quick else 8)
         for k in pick:
             tg += ['put %s 77007700' % k, 'get %s' % k, 'remove %s' % k, 'near %s' % k]
+        for k in pick[:3]:                           # the container's own pointers (newmem=false) handed back to put()
+            tg += ['putself %s 0:-1:0' % k, 'putself %s 1:-1:1' % k, 'putself %s 0:1:1' % k]
         if ks:
             tg += ['put %s -' % ks[0]]
         for t in tg:
@@ -704,6 +729,8 @@ def gen_hash(rng, quick):
             pick = ks if len(ks) <= 3 else [ks[0], ks[-1]] + rng.sample(ks, 2 if quick else 5)
             for k in pick:
                 tg += ['put %s 77007700' % k, 'put %s -' % k, 'get %s' % k, 'remove %s' % k]
+            for k in pick[:3]:                       # the container's own pointers (newmem=false) handed back to put()
+                tg += ['putself %s 0:-1:0' % k, 'putself %s 1:-1:1' % k, 'putself %s 0:1:1' % k]
             for t in tg:
                 H.append(Hist('hash', [rg, opt], pre, t, tail, 'hash/r%d/n%d' % (rg, n)))
             if len(ks) >= 3:
@@ -737,6 +764,8 @@ def gen_ltbl(rng, quick):
             tg = ['put 6e6577 aa00', 'get 6e6f6e65', 'getmulti 6e6f6e65', 'next', 'put 4b3030 5555']
             for nm in uniq[:3]:
                 tg += ['put %s 77007700' % hexs(nm), 'get %s' % hexs(nm), 'getmulti %s' % hexs(nm), 'remove %s' % hexs(nm)]
+            for nm in uniq[:2]:                      # the container's own pointers (newmem=false) handed back to put()
+                tg += ['putself %s 0:-1:0' % hexs(nm), 'putself %s 1:-1:1' % hexs(nm), 'putself %s 0:1:1' % hexs(nm)]
             for t in tg:
                 H.append(Hist('ltbl', [opt], pre, t, tail, 'ltbl/o%d/n%d' % (opt, n)))
             if n >= 3:
